@@ -284,7 +284,7 @@ theorem unstakePool_ledger {s s1 : State} {id : PoolId} {p p1 : Pool} {amt : Nat
 
 theorem ledgerInv_stake {s s' : State} {sender id denom amt} (hi : Inv s) (hl : LedgerInv s)
     (h : stepStake s sender id denom amt = .ok s') : LedgerInv s' := by
-  obtain ⟨p, s1, s2, p1, rewards, debt, s3, _, hp, _, _, _, h1, hupd, hc, h3, rfl⟩ := stepStake_ok h
+  obtain ⟨p, s1, s2, p1, rewards, debt, s3, _, _, hp, _, _, _, h1, hupd, hc, h3, rfl⟩ := stepStake_ok h
   have b1 := (sendAll_ok h1).1
   have ok := updatePool_ok hupd
   have b3 := (payRewards_ok h3).1
@@ -319,7 +319,7 @@ theorem ledgerInv_harvest {s s' : State} {sender id} (hi : Inv s) (hl : LedgerIn
 
 theorem ledgerInv_unstake {s s' : State} {sender id denom amt} (hi : Inv s) (hl : LedgerInv s)
     (h : stepUnstake s sender id denom amt = .ok s') : LedgerInv s' := by
-  obtain ⟨p, f, s1, p1, s2, rewards, debt, s3, _, hp, _, hf, hamt, hamt2, hbr, h2, hc, h3, rfl⟩ := stepUnstake_ok h
+  obtain ⟨p, f, s1, p1, s2, rewards, debt, s3, _, _, hp, _, hf, hamt, hamt2, hbr, h2, hc, h3, rfl⟩ := stepUnstake_ok h
   obtain ⟨c1, hp1, _, _⟩ := unstakePool_core hi.core hp hamt2 hbr
   obtain ⟨hpl0, hfm, _⟩ := unstakePool_ok hamt2 hbr
   obtain ⟨hlg, hden⟩ := unstakePool_ledger hbr
